@@ -612,6 +612,11 @@ HAND = [
     "a = [\n  1, # one\n  2, # two\n]\n", "a = [\n  1 # one\n]\n", "a = [{x = 1}, {y = 2}]\n", "a = []\n", "a = {}\n", "[t]\n", "[[t]]\n", "﻿a = 1\n",
     "a = 1\r\nb = 2\r\n[t]\r\nx = 1\r\n", "# only\n", "", "[b]\nx = 1\n[a]\ny = 2\n", "[x]\n[[x.a]]\nk = 1\n[x.t]\nq = 2\n", "t = { a = [1, {b = 2}] }\n",
     "'quoted key' = 1\n\"esc\\u0041ped\" = 2\n", "[a]\nb.c = 1\n[a.d]\ne = 2\n", "a = [[1, 2], [3]]\n", "[t]\na = [\n # lead\n 1,\n]\n",
+    # containers with four and more elements: removals in the front / middle followed by index-addressed edits
+    "[[s]]\nn = 'a' # 1\n[[s]]\nn = 'b' # 2\n[[s]]\nn = 'c'\n[[s]]\nn = 'd'\n", "[[s]]\n[[s]]\n[[s]]\n[[s]]\n[[s]]\nk = 1\n",
+    "[x]\n[[x.s]]\nn = 1\n[[x.s]]\nn = 2\n[x.s.sub]\nq = 1\n[[x.s]]\nn = 3\n[[x.s]]\nn = 4\n", "a = [1, 2, 3, 4, 5] # five\n",
+    "a = [\n  'a', # 1\n  'b', # 2\n  'c', # 3\n  'd', # 4\n]\n", "[t]\na = 1 # A\nb = 2 # B\nc = 3 # C\nd = 4 # D\ne = 5 # E\n",
+    "t = { a = 1, b = 2, c = 3, d = 4, e = 5 }\n", "a = [{n = 1}, {n = 2}, {n = 3}, {n = 4}]\n",
 ]
 
 
@@ -704,6 +709,7 @@ def run(ctx):
         ref = clone(m0)
         o0 = parse_canon(r0["o"]) if r0["o"] != "ERR" else None
         tok_e, com_e, sorted_paths, taints = [], [], [], []
+        mem_only = False     # after a known class was seen on this sequence only the in-memory oracle (2) goes on
         def moved_class(j, got, want):
             cl = taints[0]
             wl = h(d) + " " + ";".join(" ".join(o) for o in ops[:j])
@@ -739,6 +745,8 @@ def run(ctx):
             if r["m"] != canon(ref):
                 bad.append((f"after {' '.join(op)!r}: the tree in memory differs from the reference tree: {r['m'][:300]} vs {canon(ref)[:300]}", j))
                 break
+            if mem_only:
+                continue
             # (1) valid
             if r["t"] == "ERR":
                 ptxt = unh(r["p"])
@@ -747,9 +755,12 @@ def run(ctx):
                     wl = h(d) + " " + ";".join(" ".join(o) for o in ops[:j])
                     if cl not in classes or len(wl) < len(classes[cl][0]):
                         classes[cl] = (wl, ptxt.decode("utf-8", "replace"), "a document that parses")
-                    return bad
+                    mem_only = True
+                    continue
                 if taints:
-                    return moved_class(j, ptxt.decode("utf-8", "replace"), "a document that parses")
+                    moved_class(j, ptxt.decode("utf-8", "replace"), "a document that parses")
+                    mem_only = True
+                    continue
                 bad.append((f"after {' '.join(op)!r}: the printed document is not valid TOML", j))
                 break
             # (2') content of the print
@@ -761,7 +772,9 @@ def run(ctx):
                     if cl not in classes or len(wl) < len(classes[cl][0]):
                         classes[cl] = (wl, r["t"], plain(ref))
                 elif taints:
-                    return moved_class(j, r["t"], plain(ref))
+                    moved_class(j, r["t"], plain(ref))
+                    mem_only = True
+                    continue
                 else:
                     bad.append((f"after {' '.join(op)!r}: the printed document decodes to {r['t'][:300]}, the edited content is {plain(ref)[:300]}", j))
                     break
@@ -795,7 +808,9 @@ def run(ctx):
                     return None
                 w = walk(o0, cur, ())
                 if w and taints:
-                    return moved_class(j, w, "the original relative order")
+                    moved_class(j, w, "the original relative order")
+                    mem_only = True
+                    continue
                 if w:
                     bad.append((f"after {' '.join(op)!r}: {w}", j))
                     break
